@@ -32,11 +32,11 @@ Proof.
 Qed.
 
 (** ** add_node *)
-Lemma add_node_obj_inv g i : Inv g -> ~ In i (nlist g) -> (i < next g)%positive -> ncs g i = [] -> Inv (add_node_obj g i).
+Lemma add_node_obj_invS g i : InvS g -> ~ In i (nlist g) -> (i < next g)%positive -> ncs g i = [] -> InvS (add_node_obj g i).
 Proof.
   intros I Hi Hlt Hc. unfold add_node_obj. destruct (nget g (nn g i)) eqn:E; [exact I|].
-  destruct I as [[F P1 P1k P2 P3 P4 P5] [D1 D2 D3]].
-  constructor; constructor; try assumption.
+  destruct I as [F P1 P1k P2 P3 P4 P5].
+  constructor; try assumption.
   - destruct F as [F1 [F2 [F3 [F4 F5]]]]. unfold Fr. gs. repeat split; try assumption.
     intros x Hx. apply in_snoc in Hx. destruct Hx as [Hx| ->]; auto.
   - destruct P1 as [Dn [Dc [Dl Dw]]]. split; [|split; [|split]]; try assumption.
@@ -48,26 +48,33 @@ Proof.
       change (In c (ncs g i) <-> In c (clist g) /\ In i (cns g c)). rewrite Hc. split; [intros []|].
       intros [Hcl Hm]. apply Hi. exact (Q1 c Hcl i Hm).
 Qed.
-Theorem add_node_inv g n p : Inv g -> Inv (add_node g n p).
+Lemma add_node_obj_invD g i : InvD g -> InvD (add_node_obj g i).
+Proof. intros [D1 D2 D3]. unfold add_node_obj. destruct (nget g (nn g i)); constructor; assumption. Qed.
+Theorem add_node_invS g n p : InvS g -> InvS (add_node g n p).
 Proof.
-  intro I. unfold add_node. pose proof (i_fr g (i_s g I)) as F.
-  apply add_node_obj_inv.
-  - apply (agree_Inv g); [apply agree_new_node; exact F|exact I].
+  intro I. unfold add_node. pose proof (i_fr g I) as F.
+  apply add_node_obj_invS.
+  - apply (agree_InvS g); [apply agree_new_node; exact F|exact I].
   - intro H. change (In (next g) (nlist g)) in H. apply (fr_n g F) in H. lia.
   - cbn. lia.
   - unfold new_node. gsu. apply fget_fset_eq.
+Qed.
+Theorem add_node_inv g n p : Inv g -> Inv (add_node g n p).
+Proof.
+  intros [IS ID]. constructor; [apply add_node_invS; exact IS|].
+  unfold add_node. apply add_node_obj_invD. apply (agree_InvD g); [apply agree_new_node; apply IS|exact ID].
 Qed.
 
 (** ** delete_node: the node must not be used by a column *)
 Definition node_unused (g : geo) (name : str) : Prop :=
   forall i, nget g name = Some i -> ncs g i = [].
-Theorem delete_node_inv g name g' : Inv g -> node_unused g name -> delete_node g name = Ok g' -> Inv g'.
+Theorem delete_node_invS g name g' : InvS g -> node_unused g name -> delete_node g name = Ok g' -> InvS g'.
 Proof.
   intros I U H. unfold delete_node in H. destruct (nget g name) as [i|] eqn:E; [|discriminate].
   revert H. gs. destruct (mem i (nlist g)) eqn:M; [|discriminate]. intro H. inversion H; subst g'; clear H.
   apply mem_In in M. specialize (U i E).
-  destruct I as [[F P1 P1k P2 P3 P4 P5] [D1 D2 D3]].
-  constructor; constructor; try assumption.
+  destruct I as [F P1 P1k P2 P3 P4 P5].
+  constructor; try assumption.
   - destruct F as [F1 [F2 [F3 [F4 F5]]]]. unfold Fr. gs. repeat split; try assumption.
     intros x Hx. apply lremove_incl in Hx. auto.
   - destruct P1 as [Dn [Dc [Dl Dw]]]. split; [|split; [|split]]; try assumption.
@@ -78,59 +85,88 @@ Proof.
     + intros n Hn. apply lremove_incl in Hn. exact (Q2 n Hn).
     + intros n Hn c. apply lremove_incl in Hn. exact (Q3 n Hn c).
 Qed.
+Lemma delete_node_invD g name g' : InvD g -> delete_node g name = Ok g' -> InvD g'.
+Proof.
+  intros [D1 D2 D3] H. unfold delete_node in H. destruct (nget g name) as [i|]; [|discriminate].
+  revert H. gs. destruct (mem i (nlist g)); [|discriminate]. intro H. inversion H; subst g'. constructor; assumption.
+Qed.
+Theorem delete_node_inv g name g' : Inv g -> node_unused g name -> delete_node g name = Ok g' -> Inv g'.
+Proof. intros [IS ID] U H. constructor; [eapply delete_node_invS; eauto|eapply delete_node_invD; eauto]. Qed.
 
 (** ** delete_orphans: no precondition *)
-Lemma delete_nodes_inv names : forall g g', Inv g ->
-  (forall n i, In n names -> nget g n = Some i -> ncs g i = []) -> delete_nodes g names = Ok g' -> Inv g'.
+Lemma delete_nodes_invS names : forall g g', InvS g ->
+  (forall n i, In n names -> nget g n = Some i -> ncs g i = []) -> delete_nodes g names = Ok g' -> InvS g'.
 Proof.
   induction names as [|n r IH]; cbn [delete_nodes]; intros g g' I U H; [inversion H; subst; exact I|].
   destruct (delete_node g n) as [g1|] eqn:E; cbn [bind] in H; [|discriminate].
-  assert (I1 : Inv g1).
-  { eapply delete_node_inv; [exact I| |exact E]. intros i Hi. exact (U n i (or_introl eq_refl) Hi). }
+  assert (I1 : InvS g1).
+  { eapply delete_node_invS; [exact I| |exact E]. intros i Hi. exact (U n i (or_introl eq_refl) Hi). }
   apply (IH g1 g' I1); [|exact H].
   intros m j Hm Hj. unfold delete_node in E. destruct (nget g n) as [i|] eqn:En; [|discriminate].
   revert E. gs. destruct (mem i (nlist g)); [|discriminate]. intro E. inversion E; subst g1; clear E.
-  revert Hj. unfold nget. gs. rewrite (aget_adel str_eqb str_spec) by (apply (dl_keys _ _ _ (s1_n g (i_s1 g (i_s g I))))).
+  revert Hj. unfold nget. gs. rewrite (aget_adel str_eqb str_spec) by (apply (dl_keys _ _ _ (s1_n g (i_s1 g I)))).
   destruct (str_eqb m n); [discriminate|]. intro Hj. change (ncs g j = []). exact (U m j (or_intror Hm) Hj).
 Qed.
-Theorem delete_orphans_inv g g' : Inv g -> delete_orphans g = Ok g' -> Inv g'.
+Lemma delete_nodes_invD names : forall g g', InvD g -> delete_nodes g names = Ok g' -> InvD g'.
 Proof.
-  intros I H. unfold delete_orphans in H. eapply delete_nodes_inv; [exact I| |exact H].
+  induction names as [|n r IH]; cbn [delete_nodes]; intros g g' I H; [inversion H; subst; exact I|].
+  destruct (delete_node g n) as [g1|] eqn:E; cbn [bind] in H; [|discriminate].
+  eapply IH; [|exact H]. eapply delete_node_invD; eauto.
+Qed.
+Theorem delete_orphans_invS g g' : InvS g -> delete_orphans g = Ok g' -> InvS g'.
+Proof.
+  intros I H. unfold delete_orphans in H. eapply delete_nodes_invS; [exact I| |exact H].
   intros n i Hn Hi. apply in_map_iff in Hn. destruct Hn as [j [Hj Ho]]. unfold orphans in Ho. apply filter_In in Ho.
-  destruct Ho as [Hjl Hjo]. pose proof (s1_n g (i_s1 g (i_s g I))) as Dn.
+  destruct Ho as [Hjl Hjo]. pose proof (s1_n g (i_s1 g I)) as Dn.
   assert (X : nget g n = Some j). { rewrite <- Hj. unfold nget. apply (DL_aget_name str_eqb str_spec (nn g) (nlist g) (ndict g)); assumption. }
   rewrite X in Hi. inversion Hi; subst i. destruct (ncs g j); [reflexivity|discriminate].
 Qed.
+Theorem delete_orphans_inv g g' : Inv g -> delete_orphans g = Ok g' -> Inv g'.
+Proof.
+  intros [IS ID] H. constructor; [eapply delete_orphans_invS; eauto|]. unfold delete_orphans in H. eapply delete_nodes_invD; eauto.
+Qed.
 
 (** ** wells *)
-Lemma add_well_obj_inv g w : Inv g -> ~ In w (wlist g) -> (w < next g)%positive -> Inv (add_well_obj g w).
+Lemma add_well_obj_invS g w : InvS g -> ~ In w (wlist g) -> (w < next g)%positive -> InvS (add_well_obj g w).
 Proof.
   intros I Hi Hlt. unfold add_well_obj. destruct (wget g (wn g w)) eqn:E; [exact I|].
-  destruct I as [[F P1 P1k P2 P3 P4 P5] [D1 D2 D3]].
-  constructor; constructor; try assumption.
+  destruct I as [F P1 P1k P2 P3 P4 P5].
+  constructor; try assumption.
   - destruct F as [F1 [F2 [F3 [F4 F5]]]]. unfold Fr. gs. repeat split; try assumption.
     intros x Hx. apply in_snoc in Hx. destruct Hx as [Hx| ->]; auto.
   - destruct P1 as [Dn [Dc [Dl Dw]]]. split; [|split; [|split]]; try assumption.
     apply (DL_add_new str_eqb str_spec (wn g)); auto.
 Qed.
-Theorem add_well_inv g n : Inv g -> Inv (add_well g n).
+Theorem add_well_invS g n : InvS g -> InvS (add_well g n).
 Proof.
-  intro I. unfold add_well. pose proof (i_fr g (i_s g I)) as F.
-  apply add_well_obj_inv.
-  - apply (agree_Inv g); [apply agree_new_well; exact F|exact I].
+  intro I. unfold add_well. pose proof (i_fr g I) as F.
+  apply add_well_obj_invS.
+  - apply (agree_InvS g); [apply agree_new_well; exact F|exact I].
   - intro H. change (In (next g) (wlist g)) in H. apply (fr_w g F) in H. lia.
   - cbn. lia.
 Qed.
-Theorem delete_well_inv g name g' : Inv g -> delete_well g name = Ok g' -> Inv g'.
+Theorem add_well_inv g n : Inv g -> Inv (add_well g n).
+Proof.
+  intros [IS ID]. constructor; [apply add_well_invS; exact IS|].
+  assert (X : InvD (new_well g n)) by (apply (agree_InvD g); [apply agree_new_well; apply IS|exact ID]).
+  destruct X as [D1 D2 D3]. unfold add_well, add_well_obj. destruct (wget _ _); constructor; assumption.
+Qed.
+Theorem delete_well_invS g name g' : InvS g -> delete_well g name = Ok g' -> InvS g'.
 Proof.
   intros I H. unfold delete_well in H. destruct (wget g name) as [i|] eqn:E; [|discriminate].
   revert H. gs. destruct (mem i (wlist g)) eqn:M; [|discriminate]. intro H. inversion H; subst g'; clear H.
-  destruct I as [[F P1 P1k P2 P3 P4 P5] [D1 D2 D3]].
-  constructor; constructor; try assumption.
+  destruct I as [F P1 P1k P2 P3 P4 P5].
+  constructor; try assumption.
   - destruct F as [F1 [F2 [F3 [F4 F5]]]]. unfold Fr. gs. repeat split; try assumption.
     intros x Hx. apply lremove_incl in Hx. auto.
   - destruct P1 as [Dn [Dc [Dl Dw]]]. split; [|split; [|split]]; try assumption.
     apply (DL_del str_eqb str_spec (wn g)); assumption.
+Qed.
+Theorem delete_well_inv g name g' : Inv g -> delete_well g name = Ok g' -> Inv g'.
+Proof.
+  intros [IS [D1 D2 D3]] H. constructor; [eapply delete_well_invS; eauto|].
+  unfold delete_well in H. destruct (wget g name) as [i|]; [|discriminate].
+  revert H. gs. destruct (mem i (wlist g)); [|discriminate]. intro H. inversion H; subst g'. constructor; assumption.
 Qed.
 
 (** ** layers: the object graph stays consistent; the derived data (layer counts, name lists) is
